@@ -102,11 +102,21 @@ func (s *Scraper) ParseResponse(do func(rows []parser.Row) error) error {
 		}
 	}()
 
-	return parser.ParseStream(s.reader, time.Now().UnixNano()/1e6,
+	err := parser.ParseStream(s.reader, time.Now().UnixNano()/1e6,
 		false,
 		do, func(str string) {
 			s.log.Print(str)
 		})
+	if err != nil {
+		return err
+	}
+
+	// the stream parser treats some read errors ("connection reset by peer") as the end of the stream,
+	// but a response body that breaks off is a failed scrape
+	if wr, ok := s.reader.(*wrappedReader); ok && wr.readErr != nil {
+		return errors.Wrap(wr.readErr, "read response body")
+	}
+	return nil
 }
 
 // StatisticsSeriesResult is the samples count in one scrape
